@@ -11,8 +11,9 @@ _seq = itertools.count()
 class Probe(YowLayer):
     """Records everything that crosses it. forward=False makes it a sink in that direction."""
 
-    def __init__(self, name="probe", forward_up=True, forward_down=True):
+    def __init__(self, name="probe", forward_up=True, forward_down=True, transparent_detached=None):
         super(Probe, self).__init__()
+        self.transparent_detached = transparent_detached    # "up" for a probe placed directly above a layer emitting detached events
         self.name = name
         self.sent = []       # data travelling downward through this probe
         self.received = []   # data travelling upward
@@ -45,7 +46,21 @@ class Probe(YowLayer):
 
     def onEvent(self, ev):
         self.events.append((next(_seq), threading.get_ident(), ev.getName(), dict(ev.args)))
-        return ev.getName() in self.consume
+        if ev.getName() in self.consume:
+            return True
+        if self.transparent_detached == "up" and ev.isDetached():
+            # A detached event is handled synchronously by the emitter's direct upper neighbour and deferred for the rest. A
+            # probe inserted directly above the emitter must not take that place: the real neighbour handles the event now,
+            # the rest is deferred from there, exactly as without the probe.
+            up = getattr(self, "_YowLayer__upper", None)
+            if up is None:
+                return False
+            if up.onEvent(ev):
+                return True
+            ev.detached = False
+            self.getStack().execDetached(lambda: up.emitEvent(ev))
+            return True
+        return False
 
     def event_names(self):
         return [e[2] for e in self.events]
